@@ -285,14 +285,19 @@ impl<T: Clone + Flat> Vec<T> {
     /// Err(insertion point) otherwise (linear scan over the flat order)
     pub fn binary_search(&self, x: impl Borrow<T>) -> Result<u32, u32> {
         let x = x.borrow();
+        // the flat words of `x` are computed once and every element is serialised once (same result as
+        // `flat_eq` followed by `flat_lt` per element, a third of the symbolic-execution cost)
+        let xw = crate::flat_words(x);
         let mut k = 0;
         while k < CAP {
             if (k as u32) < self.len {
                 if let Some(y) = &self.items[k] {
-                    if flat_eq(x, y) {
+                    let yw = crate::flat_words(y);
+                    let (eq, lt) = crate::words_cmp(&xw, &yw, T::W);
+                    if eq {
                         return Ok(k as u32);
                     }
-                    if flat_lt(x, y) {
+                    if lt {
                         return Err(k as u32);
                     }
                 }
@@ -331,15 +336,22 @@ pub struct VecIter<T> {
 impl<T: Clone> Iterator for VecIter<T> {
     type Item = T;
     fn next(&mut self) -> Option<T> {
-        if self.i + self.back >= self.v.len {
+        // The cursor advances on EVERY call (also on the exhausted one) and stops at CAP, so that it
+        // stays a constant along each unwinding and `for` loops over a vector of SYMBOLIC length
+        // are unwound CAP + 1 times instead of up to the harness' unwind bound (same results:
+        // len <= CAP always, and an exhausted iterator keeps answering None).
+        let k = self.i;
+        if k as usize >= CAP {
             return None;
         }
-        let r = self.v.get(self.i);
-        self.i += 1;
-        r
+        self.i = k + 1;
+        if k + self.back >= self.v.len {
+            return None;
+        }
+        self.v.get(k)
     }
     fn size_hint(&self) -> (usize, Option<usize>) {
-        let n = (self.v.len - self.i - self.back) as usize;
+        let n = self.v.len.saturating_sub(self.i).saturating_sub(self.back) as usize;
         (n, Some(n))
     }
 }
@@ -480,6 +492,21 @@ impl<K: Clone + Flat, V: Clone> Map<K, V> {
             model::trap(0xffff_0011)
         }
     }
+    /// harness-side constructor: the map with exactly these keys and values; ASSUMES the representation
+    /// invariant (equal lengths, keys strictly increasing in the flat order) instead of sorting
+    pub fn assume_from_parts(keys: Vec<K>, vals: Vec<V>) -> Self {
+        model::assume(keys.len() == vals.len());
+        let mut k = 1;
+        while k < CAP {
+            if (k as u32) < keys.len() {
+                if let (Some(a), Some(b)) = (keys.get(k as u32 - 1), keys.get(k as u32)) {
+                    model::assume(flat_lt(&a, &b));
+                }
+            }
+            k += 1;
+        }
+        Map { keys, vals }
+    }
     pub fn keys(&self) -> Vec<K> {
         self.keys.clone()
     }
@@ -497,12 +524,17 @@ pub struct MapIter<K, V> {
 impl<K: Clone + Flat, V: Clone> Iterator for MapIter<K, V> {
     type Item = (K, V);
     fn next(&mut self) -> Option<(K, V)> {
-        if self.i >= self.m.keys.len() {
+        // cursor kept constant along each unwinding, see VecIter::next
+        let i = self.i;
+        if i as usize >= CAP {
             return None;
         }
-        let k = self.m.keys.get(self.i);
-        let v = self.m.vals.get(self.i);
-        self.i += 1;
+        self.i = i + 1;
+        if i >= self.m.keys.len() {
+            return None;
+        }
+        let k = self.m.keys.get(i);
+        let v = self.m.vals.get(i);
         match (k, v) {
             (Some(k), Some(v)) => Some((k, v)),
             _ => None,
